@@ -240,7 +240,7 @@ impl<S: Subject> Sim<S> {
     pub fn new(plan: &Plan, disc: Disc) -> Self {
         let mut reps = Vec::new();
         for i in 0..plan.editors.max(1) {
-            reps.push(Rep { st: S::init(), know: 0, merged: false, noncausal: false, order: Vec::new(), actor: Some(i + 1) });
+            reps.push(Rep { st: S::init(), know: 0, merged: false, noncausal: false, order: Vec::new(), actor: Some(plan.actor_of(i as usize)) });
         }
         for _ in 0..plan.observers {
             reps.push(Rep { st: S::init(), know: 0, merged: false, noncausal: false, order: Vec::new(), actor: None });
